@@ -20,7 +20,10 @@ pub fn generate_sm(prop: &str, ctx: &mut Ctx) {
             gen_c09(ctx);
             snn_cases(ctx);
         }
-        "C10" => gen_c10(ctx),
+        "C10" => {
+            gen_c10(ctx);
+            snn_cases(ctx);
+        }
         "C11" => {
             gen_c10(ctx);
             snn_cases(ctx);
@@ -1369,6 +1372,14 @@ fn snn_cases(ctx: &mut Ctx) {
         (format!("-~SND:3:{}+{}", q(&p2), q(&p3)), vec![p1.clone(), p2.clone()]),
         (format!("SHW:3:4~SND:7:{}~LNX:7:3", q(&p2)), vec![p1.clone(), p2.clone(), p3.clone()]),
         ("-~-".to_string(), vec![p1.clone(), p2.clone()]),
+        // calls made each time the iterator is CLONED ('@' field): to another sign, a nested transfer on this one, with and
+        // without pages to send, alone and together with calls made when pages are taken
+        ("@BYE:7".to_string(), vec![p1.clone(), p2.clone()]),
+        ("@BYE:7".to_string(), vec![]),
+        (format!("@SND:3:{}", q(&p2)), vec![p1.clone()]),
+        (format!("@CFG:3:{}~BYE:7", t90), vec![p1.clone(), p3.clone()]),
+        (format!("@LNX:3:3/BYE:7~-~SND:3:{}", q(&p2)), vec![p1.clone(), p2.clone()]),
+        ("@-".to_string(), vec![p1.clone()]),
     ];
     let verdicts: Vec<Vec<&str>> = vec![
         vec!["PFL"],
@@ -1396,7 +1407,7 @@ fn snn_cases(ctx: &mut Ctx) {
         g
     };
     for (ni, (nested, pages)) in nesteds.iter().enumerate() {
-        let op = format!("SNN.{}.{}.{}", own, nested, pages.join("+"));
+        let op = format!("SNN.{}.{}.{}", own, nested, if pages.is_empty() { "-".to_string() } else { pages.join("+") });
         let same_snd = nested.matches("SND:3:").count();
         for (vi, v) in verdicts.iter().enumerate() {
             let hello = if vi >= 10 { "UNC" } else { ["UNC", "CRX", "PLD", "RTR"][(ni + vi) % 4] };
